@@ -2,13 +2,13 @@
    cd ocaml/extracted && coqc -Q ../../coq ES ../../coq/Extract.v). *)
 From Coq Require Extraction ExtrOcamlBasic ExtrOcamlString.
 From ES Require Import Base Ssb.Param Ssb.Cfg Ssb.Equiv Ssb.Machine Lang.Ast Lang.Spec Lang.SrcSem Lang.Inline Lang.Static Lang.MacroStatic
-  Comp.Passes Comp.Closed Text.Dec SM.Model Script.Model Pyg.Engine Gen.PygTable Text.Str Text.MStr Text.MLex Text.Meta Text.Num Dec.Writer Comp.PopSem Comp.BackEnd Comp.FinalizeSem Comp.ActSem Comp.StripSem Comp.MacroRA.
+  Comp.Passes Comp.Closed Text.Dec SM.Model Script.Model Script.Shift Pyg.Engine Gen.PygTable Text.Str Text.MStr Text.MLex Text.Meta Text.Num Dec.Writer Comp.PopSem Comp.BackEnd Comp.FinalizeSem Comp.ActSem Comp.StripSem Comp.MacroRA.
 Extraction Language OCaml.
 Extraction "extracted.ml"
   equiv_run cfg_of_ssb ssb_entries cfg_of_prog pair_entries silent_cycle observe param_eqb
   strip finalize remove_all passes ordered closed_b
   serialize deserialize rewrite_offsets
-  print_script compile_script renumber
+  print_script compile_script renumber cli_number
   inline well_scoped program_has unknown_macro too_few_args self_recursive trap
   lex pyg_table table_ok
   print_single read_single single_exact lex_body
